@@ -94,7 +94,8 @@ def decode_hp(call):
     """HP decoder: HP = 'b-i,b-j,...': the k-th GT allele lies on haplotype number (k-th suffix).
     Returns (block_id, alleles in haplotype order) or None."""
     hp = call.get("HP")
-    if hp in (None, ".", ""):  # htslib writes an unset String value of Number=. as an empty field
+    if hp is None or hp.strip("\x00") in (".", ""):
+        # htslib/pysam write an unset String value of Number=. as an empty field or as NUL padding
         return None
     alleles, _ = split_gt(call.get("GT"))
     parts = [p.split("-") for p in hp.split(",")]
